@@ -45,6 +45,7 @@ class Connection:
       # or of a not yet known type
       if previous.virtual and \
           previous.record_type in [self.record_type, "\n"]:
+        self._check_segment_references(gfa)
         return self._substitute_virtual_line(previous)
       else:
         return self._process_not_unique(previous)
